@@ -45,7 +45,7 @@ k_assert_slice_crc!(k_c05_assert_slice_crc_1, 1);
 k_assert_slice_crc!(k_c05_assert_slice_crc_2, 2);
 k_assert_slice_crc!(k_c05_assert_slice_crc_3, 3);
 
-// oblig: C05.a.serializer_close kind=bounded(data=2bytes) timeout=900 tier=thorough
+// oblig: C05.a.serializer_close kind=bounded(data=2bytes) timeout=300
 #[kani::proof]
 #[kani::unwind(10)]
 fn k_c05_serializer_close() {
